@@ -24,6 +24,11 @@ Definition vec_source (t : tag) (data : list val) : source :=
 Definition sharded_source (t : tag) (shards : list (list val)) (total_len : nat) : source :=
   {| s_tag := t; s_len := total_len; s_split := fun _ => shards; s_all := concat shards |}.
 
+(* a user-written VecOps (from_custom_source) whose `len` answers None ("size unknown") but which
+   splits and clones like a Vec: the runner then uses `unwrap_or(0)` for the length *)
+Definition nolen_source (t : tag) (data : list val) : source :=
+  {| s_tag := t; s_len := 0; s_split := vec_split data; s_all := data |}.
+
 (* ---- a combiner as stored in a node: accumulator type is existential ---- *)
 Record vcomb := { vc_A : Type; vc_c : combiner val vc_A val }.
 
